@@ -104,3 +104,6 @@ def run(ctx):
 
     _sing.check_segments(ctx)  # (tools/wiring.py) the singular part of every dense operator: per-pair segments, offsets
     _sing.check_offsets(ctx)
+    from .. import spaces as _spc
+
+    _spc.paired_defaults(ctx)  # RWG / SNC and BC / RBC are built from the same options under the same keywords
